@@ -1475,7 +1475,10 @@ def camp_c19(rnd, tier):
                 b.eq(x, y)
     # bit structures: From<BitVector> / new; bool- and position-based constructors
     dsh = darray_inputs(rnd, "quick")
-    for name, s in rnd.sample(bit_input_shapes(rnd, "quick"), 6 if tier == "quick" else 12) + rnd.sample(dsh, 2 if tier == "quick" else 6):
+    # (always: lengths that are multiples of 512 ending with a one - the position-based constructors
+    # then end exactly on a line boundary)
+    ends = [("line_end512", Seqn.from_values(rand_seq(rnd, 511, [0, 1]) + [1])), ("line_end1024", Seqn.from_runs([([0], 1023), ([1], 1)]))]
+    for name, s in rnd.sample(bit_input_shapes(rnd, "quick"), 6 if tier == "quick" else 12) + rnd.sample(dsh, 2 if tier == "quick" else 6) + ends:
         vals = s.values()
         ends_with_one = bool(vals) and vals[-1] == 1
         for kind, paths in (("RSN", ["new", "from"]), ("RSW", ["new", "from"]), ("DA0", ["new", "bools", "positions"]),
@@ -1741,6 +1744,11 @@ def space_tree_inputs(rnd, tier, ty, huff):
         mid = [([rnd.choice(others)], rnd.choice([10, 40, 90])) for _ in range(200)]
         out.append(("dominant_final_run", Seqn.from_runs([([dsym], 1)] + mid + [([dsym], 60000)])))
         out.append(("dominant_initial_run", Seqn.from_runs([([dsym], 60000)] + mid + [([dsym], 1)])))
+    if huff and T >= 40:
+        # codes deeper than 8 quad levels / 16 binary levels (a code that falls back to a fixed
+        # length when "too deep" is no longer within the entropy bound)
+        out.append(("dyadic_deep_quad", dyadic_seq(rnd, 4, 9, T)))
+        out.append(("dyadic_deep_bin", dyadic_seq(rnd, 2, 17, T)))
     out.append(("big_single", Seqn.from_runs([([min(T, 9)], big)])))
     out.append(("big_two", runs_profile(rnd, [0, min(T, 200)], [big - 5, 5])))
     return out
